@@ -2,6 +2,7 @@ import logging
 from .baselex import EPS, EOF
 from ..common import Token
 from .common import ParserException, ParserGenerationException
+from .grammar import Production
 
 
 class Action:
@@ -30,7 +31,10 @@ class Reduce(Action):
 
 
 class Accept(Action):
-    def __init__(self, rule):
+    """Accept the input after a reduction according to the given rule,
+    or, without a rule, with the start symbol on top of the stack"""
+
+    def __init__(self, rule=None):
         self.rule = rule
 
     def __repr__(self):
@@ -144,6 +148,11 @@ class LrParser:
                 look_ahead = lexer.next_token()
                 assert type(look_ahead) is Token
             elif isinstance(action, Accept):
+                if action.rule is None:
+                    # The start symbol is complete, take its value:
+                    ret_val = r_data_stack.pop()
+                    break
+
                 # Pop last rule data off the stack:
                 f_args = []
                 param = self.grammar.productions[action.rule]
@@ -215,6 +224,7 @@ class LrParserBuilder:
         self.logger = logging.getLogger("pcc")
         self.grammar = grammar
         self._first = None  # Cached first set
+        self.accept_production = None
 
         # Work data structures:
         self.action_table = {}
@@ -269,8 +279,19 @@ class LrParserBuilder:
 
     def initial_item_set(self):
         """Calculates the initial item set"""
+        start = self.grammar.start_symbol
+        if any(start in p.symbols for p in self.grammar.productions):
+            # The start symbol is part of a production, so a reduction
+            # to it can happen before the end of the input. Accept on
+            # an extra production on top of the grammar instead:
+            if not self.accept_production:
+                self.accept_production = Production("$accept", [start], None)
+            productions = [self.accept_production]
+        else:
+            productions = self.grammar.productions_for_name(start)
+
         iis = set()
-        for p in self.grammar.productions_for_name(self.grammar.start_symbol):
+        for p in productions:
             iis.add(Item(p, 0, EOF))
         return self.closure(iis)
 
@@ -335,13 +356,20 @@ class LrParserBuilder:
                 else:
                     a1 = str(action)
                     a2 = str(action2)
-                    prod = self.grammar.productions[action.rule]
-                    prod2 = self.grammar.productions[action2.rule]
+                    prod = self.get_production(action)
+                    prod2 = self.get_production(action2)
                     raise ParserGenerationException(
                         f"LR conflict {a1} vs {a2} ({prod} vs {prod2})"
                     )
         else:
             self.action_table[key] = action
+
+    def get_production(self, action):
+        """Get the production of a reduce or accept action"""
+        if action.rule is None:
+            return self.accept_production
+        else:
+            return self.grammar.productions[action.rule]
 
     def generate_tables(self):
         """Generate parsing tables"""
@@ -373,8 +401,11 @@ class LrParserBuilder:
                     nextstate = transitions[(state_nr, item.Next)]
                     self.set_action(state_nr, item.Next, Shift(nextstate))
                 if item.is_reduce:
-                    if (
-                        item.production.name == self.grammar.start_symbol
+                    if item.production is self.accept_production:
+                        act = Accept()
+                    elif (
+                        not self.accept_production
+                        and item.production.name == self.grammar.start_symbol
                         and item.look_ahead == EOF
                     ):
                         # Rule 3: accept:
